@@ -79,6 +79,18 @@ CLAIMED.update({
             "Feature values contain no '/' or tab; worlds whose training fails are skipped.",
             "DESIGN.md section 6 (C16)"),
 })
+CLAIMED.update({
+    "C19": ("exploration",
+            "corpus round trip through fault-injecting reader and sink (seeded + enumerated sink fault offsets); reference parser; mirrored tokenize loop feeding the parser",
+            "Seeded corpora in the documented format are parsed through short-read/EINTR readers and written back example by example through short-write/EINTR sinks: bytes must equal the canonical re-serialisation of a harness-side reference parse and re-parse to the same examples; malformed lines must be rejected; the mirrored tokenize loop's MeCab-style output for seeded dictionaries and tab-free sentences must parse to exactly the tokenizer's tokens; a hard sink fault at any offset (seeded per run; every offset for 20 examples) makes Example::write return Err, a hard reader fault makes from_reader return Err. Sampled; sink offsets exhaustive per enumerated example.",
+            "The tokenize CLI's print loop is mirrored, not executed; inputs contain no tab/line-break characters (the statement's precondition).",
+            "DESIGN.md section 6 (C19)"),
+    "C20": ("exploration",
+            "MeCab-model conversion pipeline on a simulated disk: four fault-injecting readers, three fault-injecting sinks (seeded + enumerated offsets), compile of the outputs and comparison with a harness-side model expansion",
+            "Seeded MeCab model descriptions (templates with optional references and literals, id tables, weight tables with zero/truncating/unlisted/unmatched lines, cost factors) are converted through short/EINTR streams; the emitted files are compiled with the raw connector and every non-zero id pair must cost the sum over applicable templates of -trunc(w*factor); ids densely ascending; the statement's three error worlds must return Err; a hard fault at any offset of a sink (seeded; every offset for a few models) must give Err, a fired reader error must give Err. Sampled; sink offsets exhaustive per enumerated model.",
+            "Template shapes restricted to the unambiguous ones; feature values contain no '/'; a table without id 0 is outside the statement.",
+            "DESIGN.md section 6 (C20)"),
+})
 PENDING = {
 }
 
